@@ -14,9 +14,15 @@ Local Open Scope bool_scope.
 Definition admissible (e : entity) : bool := in_quantifier e && reserved_free e.
 
 (* for files with several entities the same with the file-level quantifier (EntitySpec.file_quantifier:
-   each declaration admissible and the documented package scopes distinct over the whole file) *)
+   each declaration admissible and the documented package scopes distinct over the whole file).
+   BOTH directions, on every case: the formal quantifier (minus the reserved names) is exactly what the real
+   compiler accepts, except for the one class the property text itself puts outside ("1..n keys"): a
+   declaration without keys compiles.  So the quantifier is neither stronger than the code needs (=>) nor
+   does it leave out declarations the compiler accepts (<=): a compiler-accepted declaration outside
+   [file_quantifier] with at least one key is a mismatch. *)
+Definition outside_by_text (es : list entity) : bool := existsb (fun e => is_nil (e_keys e)) es.
 Definition c17_check_adm (c : c17case) : bool :=
   c17_check c &&
   match c with
-  | EC es ok _ _ _ _ => implb (file_quantifier es) ok
+  | EC es ok _ _ _ _ => implb (file_quantifier es) ok && implb ok (file_quantifier es || outside_by_text es)
   end.
